@@ -106,7 +106,7 @@ def check_best_match(branches, version, res):
     accept, step = reference(branches, version)
     major_present = bool(version) and comps(version) and any(cb and cb[0] == comps(version)[0] for cb in map(comps, branches))
     res.case(
-        case_repr={"branches": list(branches), "version": version, "got": got, "step": step} if res.evaluations % 20011 == 7 else None,
+        case_repr={"branches": list(branches), "version": version, "got": got, "step": step} if res.sample_now(20011) else None,
         nontrivial_key=(tuple(branches), version) if major_present else None,
         outcome_key=(step, got if got in (None, "master") else classify(got, version)),
     )
@@ -245,7 +245,7 @@ def check_git(sb, branches, tags, version, res):
         ok = False
     res.case(
         case_repr={"git_branches": list(branches), "tags": list(tags), "version": version, "observed": list(got), "error": err}
-        if res.evaluations % 97 == 3
+        if res.sample_now(97)
         else None,
         nontrivial_key=("git", tuple(branches), tuple(tags), version) if branches or tags else None,
         outcome_key=("git", got[0], step),
@@ -327,7 +327,7 @@ def check_remote(sb, branches, version, res):
     got = ("error", None) if err else (("branch", cur) if cur != "HEAD" else ("unchanged", None))
     ok = got in exp and not (err or "").startswith("unexpected")
     res.case(
-        case_repr={"remote_branches": list(branches), "version": version, "observed": list(got), "error": err} if res.evaluations % 37 == 5 else None,
+        case_repr={"remote_branches": list(branches), "version": version, "observed": list(got), "error": err} if res.sample_now(37) else None,
         nontrivial_key=("remote", tuple(branches), version) if branches else None,
         outcome_key=("remote", got[0], step),
     )
